@@ -42,7 +42,7 @@ def run(pid, tier, seed, replay):
         if not m:
             ctx.tie_problems.append({"what": "could not parse the model's answer", "detail": out[-500:]})
         else:
-            for a, b in re.findall(r"\((\d+),\s*(\d+)\)", m.group(1)):
+            for a, b in re.findall(r"\(\s*(\d+)(?:%nat)?\s*,\s*(\d+)(?:%nat)?\s*\)", m.group(1)):
                 mism.append((cases[int(a)], int(b)))
     if mism:
         ctx.tie_problems.append({"what": "correspondence Api.GroupSlot.slot_mismatches: %d traces differ from the model" % len(mism),
